@@ -200,7 +200,8 @@ def DynR.serve (d : DynR) (j : Nat) : DynR :=
              slots := d.slots.set j sl.unfin }
   | none => d
 
-/-- One iteration of the removal loop for a completed index `pos = base + j`. -/
+/-- One iteration of the removal loop for a completed index `pos = base + j`.  Slots at and beyond
+    `mpi_funnelled_last_active_req` are MPI_REQUEST_NULL, so for such a `pos` the loop body runs too. -/
 def DynR.remove1 (d : DynR) (j : Nat) : DynR :=
   match d.slots[j]? with
   | some sl =>
@@ -210,7 +211,7 @@ def DynR.remove1 (d : DynR) (j : Nat) : DynR :=
       if l > j then
         { d with slots := (d.slots.set j { (d.slots.getD l {}) with st1 := d.base + j }).dropLast }
       else { d with slots := d.slots.dropLast }
-  | none => d
+  | none => { d with slots := d.slots.dropLast }   -- last_active_req--; array_of_requests[last_active_req] = NULL
 
 /-- The removal loop runs over the completed indices from the last to the first. -/
 def DynR.removeAll (d : DynR) (jsDesc : List Nat) : DynR := jsDesc.foldl DynR.remove1 d
